@@ -81,7 +81,19 @@ class Mnemonic(object):
         words = self.sanitize_mnemonic(words)
         # Check if passphrase is valid
         if validate:
-            self.to_entropy(words)
+            try:
+                self.to_entropy(words)
+            except ValueError as err:
+                # The sentence may be written in another language than this instance uses (sanitize_mnemonic
+                # detects it); the seed does not depend on the language, so any list that validates it will do
+                for fn in Path(BCL_INSTALL_DIR, 'wordlist').glob('*.txt'):
+                    try:
+                        Mnemonic(fn.stem).to_entropy(words)
+                        break
+                    except ValueError:
+                        continue
+                else:
+                    raise err
         mnemonic = bytes(words, 'utf8')
         password = bytes(normalize_string(password), 'utf8')
         return hashlib.pbkdf2_hmac(hash_name='sha512', password=mnemonic, salt=b'mnemonic' + password,
